@@ -40,6 +40,59 @@ func c04InFresh(prop string, k c04Case) *vlib.Failure {
 	return nil
 }
 
+// c04Respellings lists the configurations whose strings, concatenated list after list, give the same text as l's:
+// one element split at one position, two neighbouring elements merged, the last element of a list moved to the front
+// of the next list or the first element of a list moved to the end of the previous one. The scalars are l's.
+func c04Respellings(l CfgLit) []CfgLit {
+	get := func(c *CfgLit) []*[]string {
+		return []*[]string{&c.Origins, &c.Methods, &c.RequestHeaders, &c.ResponseHeaders}
+	}
+	clone := func() CfgLit {
+		c := l
+		for _, p := range get(&c) {
+			*p = append([]string(nil), *p...)
+		}
+		return c
+	}
+	var out []CfgLit
+	for li := 0; li < 4; li++ {
+		src := *get(&l)[li]
+		for j, e := range src {
+			for _, p := range []int{1, len(e) / 2, len(e) - 1} {
+				if p <= 0 || p >= len(e) {
+					continue
+				}
+				c := clone()
+				lst := get(&c)[li]
+				*lst = append(append(append([]string(nil), src[:j]...), e[:p], e[p:]), src[j+1:]...)
+				out = append(out, c)
+			}
+			if j+1 < len(src) {
+				c := clone()
+				lst := get(&c)[li]
+				*lst = append(append(append([]string(nil), src[:j]...), e+src[j+1]), src[j+2:]...)
+				out = append(out, c)
+			}
+		}
+		if li+1 < 4 {
+			next := *get(&l)[li+1]
+			if len(src) > 0 {
+				c := clone()
+				ps := get(&c)
+				*ps[li], *ps[li+1] = append([]string(nil), src[:len(src)-1]...), append([]string{src[len(src)-1]}, next...)
+				out = append(out, c)
+			}
+			if len(next) > 0 {
+				c := clone()
+				ps := get(&c)
+				*ps[li], *ps[li+1] = append(append([]string(nil), src...), next[0]), append([]string(nil), next[1:]...)
+				out = append(out, c)
+			}
+		}
+	}
+	return out
+}
+
 // c04Battery: every atom of every table alone in its list (the other lists minimal and valid), through NewMiddleware.
 func c04Battery() []c04Case {
 	var out []c04Case
@@ -196,6 +249,55 @@ func c04Run(k c04Case) (m *cors.Middleware, err error, f *vlib.Failure) {
 			m = new(cors.Middleware)
 		}
 		err = m.Reconfigure(&cfg)
+	case "reconfigure-respelled":
+		// the middleware first holds, in turn, every accepted configuration whose strings, read one after the other,
+		// spell the same text: an element split in two, two neighbours merged, an element moved across the border
+		// between two lists. Whatever it held, the verdict on cfg is that of a fresh NewMiddleware.
+		_, fresh := cors.NewMiddleware(k.Cfg.Config())
+		for _, alt := range c04Respellings(k.Cfg) {
+			m0, e0 := cors.NewMiddleware(alt.Config())
+			if e0 != nil {
+				continue
+			}
+			c := k.Cfg.Config()
+			if e := m0.Reconfigure(&c); (e == nil) != (fresh == nil) {
+				return m0, e, vlib.Failf("a middleware that holds %s says err=%v when reconfigured with %s; NewMiddleware on the same value says err=%v", alt.GoLiteral(), e, k.Cfg.GoLiteral(), fresh)
+			}
+		}
+		m, err = cors.NewMiddleware(cfg)
+	case "reconfigure-edited-config-result":
+		// the middleware holds placeholders of the same shape; its own Config() result is overwritten in place with the
+		// values of cfg (lists are re-sliced only where the normal form has another length) and handed to Reconfigure
+		ph := k.Cfg
+		fill := func(n int, format string) []string {
+			out := make([]string, n)
+			for i := range out {
+				out[i] = fmt.Sprintf(format, i)
+			}
+			return out
+		}
+		ph.Origins, ph.Methods = fill(len(k.Cfg.Origins), "https://placeholder%d.example"), fill(len(k.Cfg.Methods), "PLACEHOLDER%d")
+		ph.RequestHeaders, ph.ResponseHeaders = fill(len(k.Cfg.RequestHeaders), "X-Placeholder-%d"), fill(len(k.Cfg.ResponseHeaders), "X-Placeholder-R-%d")
+		ph.Credentialed, ph.PNA, ph.PNANoCORS, ph.MaxAge, ph.Status = false, false, false, 0, 0
+		m0, e0 := cors.NewMiddleware(ph.Config())
+		if e0 != nil {
+			m, err = cors.NewMiddleware(cfg)
+			break
+		}
+		cur := m0.Config()
+		over := func(dst *[]string, src []string) {
+			if len(*dst) != len(src) {
+				*dst = append((*dst)[:0], src...)
+				return
+			}
+			copy(*dst, src)
+		}
+		over(&cur.Origins, cfg.Origins)
+		over(&cur.Methods, cfg.Methods)
+		over(&cur.RequestHeaders, cfg.RequestHeaders)
+		over(&cur.ResponseHeaders, cfg.ResponseHeaders)
+		cur.Credentialed, cur.MaxAgeInSeconds, cur.ExtraConfig = cfg.Credentialed, cfg.MaxAgeInSeconds, cfg.ExtraConfig
+		m, err = m0, m0.Reconfigure(cur)
 	default:
 		// "reconfigure-neighbour-<i>": the middleware is first given the same configuration with exactly one scalar
 		// field changed (if that neighbour is acceptable; otherwise it stays a zero value), then reconfigured.
@@ -476,7 +578,8 @@ func c04Explore(c *vlib.Ctx, try0 func(k c04Case)) {
 	sws := allSwitches()
 	vias := []string{"new", "reconfigure-zero", "reconfigure-configured", "reconfigure-same-origins", "reconfigure-debug",
 		"reconfigure-neighbour-0", "reconfigure-neighbour-1", "reconfigure-neighbour-2", "reconfigure-neighbour-3", "reconfigure-neighbour-4", "reconfigure-neighbour-5", "reconfigure-neighbour-6",
-		"reconfigure-normalised-neighbour-0", "reconfigure-normalised-neighbour-1", "reconfigure-normalised-neighbour-2", "reconfigure-normalised-neighbour-3", "reconfigure-normalised-neighbour-4", "reconfigure-normalised-neighbour-5", "reconfigure-normalised-neighbour-6"}
+		"reconfigure-normalised-neighbour-0", "reconfigure-normalised-neighbour-1", "reconfigure-normalised-neighbour-2", "reconfigure-normalised-neighbour-3", "reconfigure-normalised-neighbour-4", "reconfigure-normalised-neighbour-5", "reconfigure-normalised-neighbour-6",
+		"reconfigure-respelled", "reconfigure-edited-config-result"}
 	// P1: all 32 switch combinations x all origin lists of length <= L, other fields valid
 	L := vlib.Pick(c, 2, 3)
 	ol := idxLists(len(c04OA), L)
